@@ -80,7 +80,11 @@ def gen_history(rng, grammar, switches=False):
             recs.append(["sample", pid, tid, ts])
             last_sample[(pid, tid)] = ts
         elif r < 50:
-            recs.append(["sample", pid, 0, tick()])   # idle thread
+            if not grammar and rng.chance(1, 3):
+                # a task sampled on its exit path after it was unhashed: the kernel reports pid = tid = -1 (perf script shows ":-1 -1"); not the idle thread
+                recs.append(["sample", 0xFFFFFFFF, 0xFFFFFFFF, tick()])
+            else:
+                recs.append(["sample", pid, 0, tick()])   # idle thread
         elif r < 62:
             # new thread: FORK, or first seen through a sample / comm
             nt = max(max(x for s in live.values() for x in s), next_pid) + rng.range(1, 5)
@@ -151,6 +155,8 @@ def to_perf(recs, shuffle_rng=None, layout=None, origin=ORIGIN):
     P.set_layout(*lay[:4])
     # a sixth element: the file has two events (cpu-clock and a dummy tracking event) and the task records belong to event 0 or 1
     P.set_task_event(lay[5] if len(lay) > 5 else None)
+    # a seventh element: True = the attribute lacks sample_id_all (COMM / MMAP2 records then carry no time at all)
+    P.set_id_all(not (len(lay) > 6 and lay[6]))
     try:
         return _to_perf(recs, shuffle_rng, origin, lay[4] if len(lay) > 4 else "std")
     finally:
@@ -207,6 +213,11 @@ def _to_perf(recs, shuffle_rng=None, origin=ORIGIN, chains="std"):
             rounds.append(b"".join(fixed) + P.finished_round())
             i += n
         data = rounds
+    elif not P._layout["id_all"]:
+        # without sample_id_all the COMM / MMAP2 records have no time; the reader sorts every round by time with such records first (key 0, unstable
+        # among themselves), so each record gets a round of its own and the file order is the processing order
+        # (two round ends: the reader hands a round's records out only at the end of the FOLLOWING round, sorted together with that round's)
+        data = [b + P.finished_round() + P.finished_round() for _, b in out]
     else:
         data = [b for _, b in out] + [P.finished_round()]
     last = max([ts for ts, _ in out] + [ORIGIN])
@@ -261,7 +272,8 @@ def run_import(samply, recs, d, shuffle_seed=None, extra_args=(), layout=None, o
 
 
 # ---------- Coq rendering ----------
-def coq_records(recs):
+def coq_records(recs, comm_times=True):
+    """comm_times = False: the file was written without sample_id_all, its COMM records carry no time (0 in the model's record)"""
     out = []
     for r in recs:
         k = r[0]
@@ -270,7 +282,7 @@ def coq_records(recs):
         elif k == "exit":
             out.append("(RExit %d %d %d)" % (r[1], r[2], r[3]))
         elif k == "comm":
-            out.append("(RComm %d %d %d %s %d)" % (r[1], r[2], r[3], "true" if r[4] else "false", r[5]))
+            out.append("(RComm %d %d %d %s %d)" % (r[1], r[2], r[3], "true" if r[4] else "false", r[5] if comm_times else 0))
         elif k == "sample":
             out.append("(RSample %d %d %d)" % (r[1], r[2], r[3]))
         elif k == "switch":
@@ -286,9 +298,9 @@ def _pname(s):
     m = re.fullmatch(r"nm(\d+)", s)
     if m:
         return "(NGiven %s)" % m.group(1)
-    m = re.fullmatch(r"<(\d+)>", s)
+    m = re.fullmatch(r"<(-?\d+)>", s)
     if m:
-        return "(NPid %s)" % m.group(1)
+        return "(NPid %d)" % (int(m.group(1)) % 2**32)          # pids are i32 in the converter and u32 in the profile: "<-1>" is pid 4294967295
     return "(NGiven 999999)"
 
 
@@ -300,9 +312,9 @@ def _tname(e):
     m = re.fullmatch(r"nm(\d+)", e["tname"])
     if m:
         return "(TNGiven %s)" % m.group(1)
-    m = re.fullmatch(r"Thread <(\d+)(?:\.(\d+))?>", e["tname"])
+    m = re.fullmatch(r"Thread <(-?\d+)(?:\.(\d+))?>", e["tname"])
     if m:
-        return "(TNFallback %s %s)" % (m.group(1), m.group(2) or "0")
+        return "(TNFallback %d %s)" % (int(m.group(1)) % 2**32, m.group(2) or "0")
     return "(TNGiven 999999)"
 
 
@@ -319,8 +331,8 @@ def coq_view(v):
     return K.coq_list(out)
 
 
-def coq_case(recs, v, origin=ORIGIN):
-    return "(%d, %s, %s)" % (origin, coq_records(recs), coq_view(v))
+def coq_case(recs, v, origin=ORIGIN, comm_times=True):
+    return "(%d, %s, %s)" % (origin, coq_records(recs, comm_times), coq_view(v))
 
 
 def evaluate(prop, verdict_fn, cases, stats, extra_args_of=lambda c: (), wrap=None, case_type="(N * list record * list oentry)"):
@@ -373,7 +385,8 @@ def evaluate(prop, verdict_fn, cases, stats, extra_args_of=lambda c: (), wrap=No
             stats.setdefault("kinds", {})
             kk = rec[0] + ("-exec" if rec[0] == "comm" and rec[4] else "")
             stats["kinds"][kk] = stats["kinds"].get(kk, 0) + 1
-        t = coq_case(c["items"], r["view"], c.get("origin", ORIGIN))
+        lay = c.get("layout") or []
+        t = coq_case(c["items"], r["view"], c.get("origin", ORIGIN), comm_times=not (len(lay) > 6 and lay[6]))
         terms.append(wrap(c, t) if wrap else t)
         idx.append(i)
     shards = [K.case_defs(case_type, ch, fn=verdict_fn) for ch in K.chunked(terms, K.NCPU)]
